@@ -89,6 +89,16 @@ func addSignature(b *bundle.Bundle, signer *signature.Signer, rs int) error {
 			if pih2, err := e2.AddPayloadIntegrity(b.Version, rs); err == nil {
 				duplicateRefused = signer.AddExchange(e2, pih2) != nil
 			}
+			// ... and a resource of another URL of the same host whose header map cannot be
+			// serialized (keys differing only in letter case): refused as well
+			u3 := *e.Request.URL
+			u3.Path += "-unhashable"
+			e3 := &bundle.Exchange{Request: bundle.Request{URL: &u3}, Response: bundle.Response{Status: 200, Header: http.Header{"Content-Type": {"text/plain"}, "X-Robots-Tag": {"a"}, "x-robots-tag": {"b"}}, Body: []byte("third")}}
+			if pih3, err := e3.AddPayloadIntegrity(b.Version, rs); err == nil {
+				if signer.AddExchange(e3, pih3) == nil {
+					duplicateRefused = false
+				}
+			}
 			offerDuplicate = false
 		}
 	}
